@@ -311,14 +311,16 @@ def evalfn (p : TableProb) (x : List Int) : Option (List Rat × List Rat × List
     (the start subset is checked by the driver op), the default is never read -/
 def evalD (p : TableProb) (x : List Int) : List Rat × List Rat × List Rat := (p.evalfn x).getD ([], [], [])
 
-/-- `(gbest_ineqcv.sum() + gbest_eqcv.sum(), gbest_obj.sum())` -/
-def key (v : List Rat × List Rat × List Rat) : Rat × Rat := (Np.sum v.2.1 + Np.sum v.2.2, Np.sum v.1)
-
-/-- the (constraint violation, score) pair of the problem formulation `G(x) ≤ 0, H(x) = 0`:
-    `(Σ max(0, g) + Σ |h|, Σ obj)`.  Coincides with `key` whenever the constraint functions are
-    penalties (non-negative); differs from it for signed constraint functions (finding D41) -/
-def vkey (v : List Rat × List Rat × List Rat) : Rat × Rat :=
+/-- the climbers' key as REPAIRED (D41):
+    `gbest_cv = numpy.maximum(gbest_ineqcv, 0.0).sum() + numpy.abs(gbest_eqcv).sum(); gbest_score = gbest_obj.sum()`
+    — the (constraint violation, score) pair of the problem formulation `G(x) ≤ 0, H(x) = 0` -/
+def key (v : List Rat × List Rat × List Rat) : Rat × Rat :=
   (Np.sum (v.2.1.map ratMax0) + Np.sum (v.2.2.map ratAbs), Np.sum v.1)
+
+/-- the key BEFORE the repair of D41: `(gbest_ineqcv.sum() + gbest_eqcv.sum(), gbest_obj.sum())` — slack of
+    a satisfied signed constraint counted as negative violation (kept for the regression counterexample;
+    coincides with `key` when the constraint functions are penalties, i.e. non-negative) -/
+def keyPrerepair (v : List Rat × List Rat × List Rat) : Rat × Rat := (Np.sum v.2.1 + Np.sum v.2.2, Np.sum v.1)
 
 end TableProb
 
@@ -405,11 +407,15 @@ def solutionOf (x : List ε) (v : ν × ν × ν) : Soln ε ν := assemble [⟨x
 def mulEmptyTuple (v : List ε) : Except String (List ε) :=
   if v.length = 1 then .ok [] else .error "operands could not be broadcast together"
 
-/-- `Problem._evaluate` for a batch of chromosomes, as written:
+/-- `Problem._evaluate` for a batch of chromosomes, as REPAIRED (D42):
     element-wise problems (`x.ndim == 1`, pymoo loops over the rows) call `evalfn(x, *args)`; the
-    vectorised branch (`elementwise = False`) calls `evalfn(v *args, **kwargs)`, which PARSES as the
-    product `v * args` with `args = ()` (finding D42) -/
+    vectorised branch (`elementwise = False`) calls `evalfn(v, *args, **kwargs)` for every row `v` -/
 def evaluateBatch (elementwise : Bool) (ev : List ε → ν) (X : List (List ε)) : Except String (List ν) :=
+  if elementwise then .ok (X.map ev) else X.mapM (fun v => (pure (ev v) : Except String ν))
+
+/-- the vectorised branch BEFORE the repair of D42: `evalfn(v *args, **kwargs)` PARSES as the product
+    `v * args` with `args = ()` (kept for the regression counterexample) -/
+def evaluateBatchPrerepair (elementwise : Bool) (ev : List ε → ν) (X : List (List ε)) : Except String (List ν) :=
   if elementwise then .ok (X.map ev) else X.mapM (fun v => (mulEmptyTuple v).map ev)
 
 end assembly
